@@ -31,6 +31,8 @@ def mentions (e : Ev) (sub : Bytes) : Bool :=
   match e with
   | .ns _ h _ _ => containsSub h sub
   | .mail _ a _ _ | .rcpt _ a _ _ => containsSub a sub
+  | .sasl (some resp) _ _ _ => containsSub resp sub      -- what the SASL mechanism was handed
+  | .authMech _ m _ => containsSub m sub
   | _ => false
 
 /-! ### C08 — each session logged out exactly once; nothing runs after the connection ends -/
